@@ -219,6 +219,9 @@ func runCopyRule(c *Ctx, prop string) {
 	rule3 := prop + "-NEWSTATE"
 	c.Rule(rule3, "state added next to the mechanism (a field or package-level variable the reference tree does not have) is kept consistent: accessed under the lock its writers hold, refreshed or invalidated by every exported operation that changes what it is derived from, and — for a memo — keyed by everything its value depends on", 1)
 	checkNewState(c, rule3, pkgs...)
+	rule4 := prop + "-ESCAPE"
+	c.Rule(rule4, "a map that a type updates under its own mutex stays behind that mutex: no method returns the map itself or stores it into another object (a copy made under the lock is the accepted form) — otherwise its readers race with the owner's writers", 1)
+	checkGuardedEscape(c, rule4, pkgs...)
 }
 
 // checkHelperNilContract (rule <P>-NILOK): a helper the reference tree does not have that reports by error
